@@ -78,6 +78,10 @@ func main() {
 	for i := 0; i < c.Pick(8, 80); i++ { // a reader parked between its kv load of a schema and its return, flushes in between
 		jobs = append(jobs, job{"schemacache", i, false})
 	}
+	nPark := c.Pick(16, 160) // a metadata flush parked at a step of handing its blocks to the kv flusher, new names meanwhile
+	for i := 0; i < nPark; i++ {
+		jobs = append(jobs, job{"flushpark", i, false})
+	}
 	scratch := c.Scratch()
 	results := make([]*caseResult, len(jobs))
 	raceOut := make([]string, len(jobs))
@@ -109,6 +113,7 @@ func main() {
 		results[i] = r
 		_ = os.RemoveAll(dir)
 	})
+	total := map[string]int{}
 	for i, r := range results {
 		j := jobs[i]
 		if died[i] == "watchdog" {
@@ -127,6 +132,7 @@ func main() {
 		c.Count("cases."+j.kind, 1)
 		for k, v := range r.Counters {
 			c.Count(k, v)
+			total[k] += v
 		}
 		for _, k := range r.Nontrivial {
 			c.Nontrivial(k)
@@ -145,6 +151,25 @@ func main() {
 				"index/metric_index_database.go", "index/metric_schema_store.go", "index/sequence.go"}) {
 				c.Violation("C09/data-race/"+strings.Join(rep.TopFrames, "+"), fmt.Sprintf("conc %d: data race with top frames %v", j.idx, rep.TopFrames), rep.Text)
 			}
+		}
+	}
+	// the flushpark cases only speak if the schedule they are about was reached
+	if nPark > 0 {
+		for _, fam := range parkFamilies {
+			for _, step := range parkSteps {
+				if total["flushpark.parks_reached."+fam+"/"+step] == 0 {
+					c.Inconclusive("flushpark: no metadata flush was parked at %s/%s", fam, step)
+				}
+			}
+		}
+		for _, kind := range []string{"field", "tagkey", "metric", "namespace", "tagvalue"} {
+			if total["flushpark.names_created_while_the_flush_is_parked."+kind] == 0 {
+				c.Inconclusive("flushpark: no new %s was created while a metadata flush was parked", kind)
+			}
+		}
+		if total["flushpark.names_created_in_the_scope_of_the_parked_block_while_parked.schema/"+stepCommitted]+
+			total["flushpark.creators_waited_for_the_parked_flush.schema/"+stepCommitted] == 0 {
+			c.Inconclusive("flushpark: no creator of a new field / tag key ran against a schema flush parked right after a block was committed")
 		}
 	}
 	c.Finish()
